@@ -29,6 +29,13 @@ def sh(cmd, timeout=1800, env=None):
     p = subprocess.run(cmd, shell=True, stdout=subprocess.PIPE, stderr=subprocess.STDOUT, timeout=timeout, env=env)
     return p.returncode, p.stdout.decode("utf-8", "replace")
 
+# 0. make sure the worktree holds exactly the delivered patch (the seeders share one git stash and have swapped changes before)
+rc, cur = sh("git -C %s diff" % wt)
+want = open(os.path.join(out, "patch.diff")).read()
+norm = lambda t: [l for l in t.splitlines() if (l.startswith("+") or l.startswith("-")) and not l.startswith("+++") and not l.startswith("---")]
+if norm(cur) != norm(want):
+    sh("git -C %s checkout -- . && git -C %s apply %s" % (wt, wt, os.path.join(out, "patch.diff")))
+    res["worktree_reset_to_patch"] = True
 # 1. suite on the modified build
 rc, o = sh("cmake --build %s/_build >/dev/null 2>&1; ctest --test-dir %s/_build -j8 --timeout 900 2>&1 | tail -6" % (wt, wt))
 failed = [l for l in o.splitlines() if "Failed" in l or "***" in l]
